@@ -33,6 +33,7 @@ def offset_decl(d, off):
     def st(s):
         if s[0] == 'a': return ('a', n(s[1]), [n(r) for r in s[2]]) + (((s[3][0], n(s[3][1])),) if len(s) > 3 and s[3] else ())
         if s[0] == 's': return ('s', n(s[1]), n(s[2]), n(s[3]))
+        if s[0] == 'e': return ('e', n(s[1]), n(s[2]))
         return ('c', n(s[1]), [(n(a), n(b)) for a, b in s[2]], [n(p) for p in s[3]], [(n(a), n(b)) for a, b in s[4]])
     k = d[0]
     if k == 'E': return ('E', n(d[1]), [n(x) for x in d[2]], n(d[3]))
